@@ -285,6 +285,70 @@ def case_nearmiss(rng: Any, ctx: Ctx, index: int) -> None:
     guarded('C12.products', judge)
 
 
+def case_chain(rng: Any, ctx: Ctx, index: int) -> None:
+    """H = Q @ P with Q an axis permutation / reshape after the selection P: in (H.T @ H).reduce() the pair Q.T @ Q vanishes first
+    and only then are P.T and P adjacent - they must still become the diagonal of multiplicities (likewise P @ P.T inside
+    H @ H.T with H = P @ Q.T for a duplicate-free P)."""
+    from furax._base.axes import RavelOperator, ReshapeOperator
+    from furax._base.core import CompositionOperator
+    from .c07 import residue
+    gen.begin_case(rng)
+    dt = gen.case_dtype(rng)
+    shape = tuple(int(v) for v in rng.integers(2, 5, size=int(rng.integers(2, 4))))
+    s = S(shape, dt)
+    n0 = shape[0]
+    unique = bool(rng.integers(2))
+    if unique:
+        arr = rng.permutation(n0)[: int(rng.integers(1, n0 + 1))]
+    else:
+        arr = rng.integers(0, n0, size=int(rng.integers(2, n0 + 3)))
+        arr[1] = arr[0]
+    idx = (jnp.asarray(arr, dtype=jnp.int32),)
+    p = IndexOperator(idx, in_structure=s, out_structure=gen.index_out_structure(s, idx), unique_indices=unique)
+
+    def mk_q(st: Any) -> Any:
+        k = gen.pick(rng, ['moveaxis', 'ravel', 'reshape'])
+        if k == 'moveaxis':
+            q = gen.a_moveaxis(rng, st)
+            if q is not None:
+                return q
+        if k == 'ravel':
+            return RavelOperator(in_structure=st)
+        return ReshapeOperator((-1,), in_structure=st)
+    if unique:
+        q = mk_q(s)                                  # H = P @ Q.T ; H @ H.T = P @ Q.T @ Q @ P.T
+        ops = [p, q.T, q, p.T]
+        want = 'index_transpose'
+    else:
+        q = mk_q(p.out_structure())                  # H = Q @ P ; H.T @ H = P.T @ Q.T @ Q @ P
+        ops = [p.T, q.T, q, p]
+        want = 'transpose_index'
+    LOG.case_key(f'chain:{want}:{type(q).__name__}:rank{len(shape)}', True)
+    LOG.count('C12.chain', f'{want}:{type(q).__name__}')
+
+    def judge() -> None:
+        e = CompositionOperator(list(ops))
+        with quiet():
+            m0 = None
+            for o in ops:
+                mo = dense.matrix(o)
+                m0 = mo if m0 is None else m0 @ mo
+        r = e.reduce()
+        LOG.evaluated('C12.products')
+        rops = list(r.operands) if isinstance(r, CompositionOperator) else [r]
+        for a, b in zip(rops[:-1], rops[1:]):
+            if residue(a, b) == want:
+                LOG.violation('C12', 'C12.products', f'IndexOperator/chain/{want}/not-simplified',
+                              'the selection and its transpose became adjacent after their neighbours cancelled and were left unsimplified',
+                              before=[dense.skeleton(o) for o in ops], after=[dense.skeleton(o) for o in rops])
+                return
+        with quiet():
+            m1 = dense.matrix(r)
+        if m0.shape != m1.shape or not np.allclose(m0, m1, atol=1e-4):
+            LOG.violation('C12', 'C12.products', f'IndexOperator/chain/{want}/matrix', 'reduce() changed the map', before=[dense.skeleton(o) for o in ops])
+    guarded('C12.products', judge)
+
+
 def case_pack(rng: Any, ctx: Ctx, index: int) -> None:
     gen.begin_case(rng)
     dt = gen.case_dtype(rng)
@@ -346,5 +410,7 @@ def run(ctx: Ctx) -> None:
     def pack_mix(rng: Any, c: Ctx, index: int) -> None:
         if index % 4 == 3:
             return case_nearmiss(rng, c, index // 4)
+        if index % 4 == 2:
+            return case_chain(rng, c, index // 4)
         return case_pack(rng, c, index)
     drive(ctx, pack_mix, 800, 8000, stream=1, part='pack')
